@@ -52,9 +52,24 @@ theorem get_keeps_files (c : Lru) (k : Key) : (c.get k).1.files = c.files := by
   · rfl
   · split <;> rfl
 
-/-- F-C15-a, kernel-checked: a pre-populated directory larger than the size limit loses its oldest entry
-    on the first (read-only) use -/
+/-- the read-write start-up scan (intended): a pre-populated directory larger than the size limit loses its oldest entry -/
 theorem reopen_evicts_witness : (({ cap := 15 } : Lru).reopen [(1, 10), (2, 10)]).files = [(2, 10)] := by decide
+
+/-- the start-up scan of a read-only cache keeps every file, whatever size limit is configured (the directory total is below 2^64 bytes) -/
+theorem openReadOnly_keeps_files (c : Lru) (order : List (Key × Nat)) (h64 : (order.map (·.2)).sum ≤ u64Max) :
+    (c.openReadOnly order).files = order := by
+  unfold openReadOnly
+  exact reopen_keeps_files _ order h64
+
+/-- … and so does every sequence of lookups after it -/
+theorem readOnly_session_keeps_files (c : Lru) (order : List (Key × Nat)) (ks : List Key) (h64 : (order.map (·.2)).sum ≤ u64Max) :
+    (ks.foldl (fun acc k => (acc.get k).1) (c.openReadOnly order)).files = order := by
+  have key : ∀ (ks : List Key) (a : Lru), (ks.foldl (fun acc k => (acc.get k).1) a).files = a.files := by
+    intro ks
+    induction ks with
+    | nil => intro a; rfl
+    | cons k ks ih => intro a; simp only [List.foldl_cons]; rw [ih, get_keeps_files]
+  rw [key, openReadOnly_keeps_files c order h64]
 
 end Lru
 
